@@ -45,7 +45,7 @@ def check_invariants(inp):
   php = cds.PaddedBatchHParams(batch_size=4)
   if which == 'agnostic':
     W = inp.get('window', 3)
-    alg = agnostic_fed_avg.agnostic_federated_averaging(pel, sgd, mom, hp, php, [0.3, 0.7], 0.5,
+    alg = agnostic_fed_avg.agnostic_federated_averaging(pel, sgd, mom, hp, php, inp.get('init_weights', [0.3, 0.7]), 0.5,
                                                         domain_window_size=W, init_domain_window=[1., 1.])
     st = alg.init(p0())
     for r, sizes in enumerate(rounds):
@@ -142,8 +142,35 @@ def check_invariants(inp):
         return 'ignore_grads_haiku: trainable parameters are not updated like the base optimizer does'
 
 
+def check_eg(inp):
+  w = jnp.asarray(inp['w'], jnp.float32)
+  loss = jnp.asarray(inp['loss'], jnp.float32)
+  for step in range(inp.get('steps', 1)):
+    w = agnostic_fed_avg.update_domain_weights(w, loss, inp['lr'], 'eg')
+    a = np.asarray(w, np.float64)
+    if np.isnan(a).any() or (a < 0).any() or abs(a.sum() - 1) > 1e-5:
+      return (f'update_domain_weights step {step + 1}: {a} (sum {a.sum()!r}) is not a probability vector '
+              f'(from w={inp["w"]}, loss={inp["loss"]}, lr={inp["lr"]})')
+
+
+def sweep_eg(tier, seed):
+  rs = np.random.RandomState(seed)
+  fixed = [([0.3, 0.7], [1.0, 2.0]), ([1e-4, 0.9999], [0.5, 0.1]), ([0.0, 0.4, 0.6], [3.0, 1.0, 0.0]),
+           ([1e-6, 1e-6, 1 - 2e-6], [0.0, 5.0, 1.0]), ([1.0], [2.0]), ([0.25] * 4, [0.0] * 4),
+           ([0.5, 0.5], [-3.0, 40.0])]
+  for w, l in fixed:
+    for lr in (0.0, 0.1, 1.0):
+      yield dict(w=w, loss=l, lr=lr, steps=3)
+  for _ in range({'quick': 10}.get(tier, 200)):
+    n = int(rs.randint(1, 7))
+    w = rs.dirichlet(np.full(n, 0.05))   # sparse-ish: many tiny entries
+    yield dict(w=[float(x) for x in w], loss=[float(x) for x in rs.uniform(0, 6, n)], lr=float(rs.choice([0.01, 0.5, 2.0])),
+               steps=2)
+
+
 def sweep_invariants(tier, seed):
   R = [[3, 4], [2, 0, 5], [0, 0], [4, 1], [3]]
+  yield dict(which='agnostic', rounds=R, window=2, init_weights=[0.0002, 0.9998])
   yield dict(which='agnostic', rounds=R, window=3)
   yield dict(which='agnostic', rounds=R, window=1)
   yield dict(which='apfl', rounds=R, coef=0.9)
@@ -155,7 +182,7 @@ def sweep_invariants(tier, seed):
   yield dict(which='ignore', rounds=[])
 
 
-CHECKERS = {'invariants': (check_invariants, sweep_invariants)}
+CHECKERS = {'invariants': (check_invariants, sweep_invariants), 'eg': (check_eg, sweep_eg)}
 
 if __name__ == '__main__':
   sys.exit(common.main(CHECKERS))
